@@ -150,9 +150,18 @@ func (gr GithubReporter) List(ctx context.Context, _ any) ([]ExistingComment, er
 	defer cancel()
 
 	slog.Debug("Getting the list of pull request comments", slog.Int("pr", gr.prNum))
-	existing, _, err := gr.client.PullRequests.ListComments(reqCtx, gr.owner, gr.repo, gr.prNum, nil)
-	if err != nil {
-		return nil, fmt.Errorf("failed to list pull request reviews: %w", err)
+	var existing []*github.PullRequestComment
+	opt := &github.PullRequestListCommentsOptions{} // nolint: exhaustruct
+	for {
+		page, resp, err := gr.client.PullRequests.ListComments(reqCtx, gr.owner, gr.repo, gr.prNum, opt)
+		if err != nil {
+			return nil, fmt.Errorf("failed to list pull request reviews: %w", err)
+		}
+		existing = append(existing, page...)
+		if resp.NextPage == 0 {
+			break
+		}
+		opt.Page = resp.NextPage
 	}
 
 	comments := make([]ExistingComment, 0, len(existing))
@@ -308,9 +317,18 @@ func (gr GithubReporter) listPRFiles(ctx context.Context) ([]*github.CommitFile,
 	defer cancel()
 
 	slog.Debug("Getting the list of modified files", slog.Int("pr", gr.prNum))
-	files, _, err := gr.client.PullRequests.ListFiles(reqCtx, gr.owner, gr.repo, gr.prNum, nil)
-	if err != nil {
-		return nil, fmt.Errorf("failed to list pull request files: %w", err)
+	var files []*github.CommitFile
+	opt := &github.ListOptions{} // nolint: exhaustruct
+	for {
+		page, resp, err := gr.client.PullRequests.ListFiles(reqCtx, gr.owner, gr.repo, gr.prNum, opt)
+		if err != nil {
+			return nil, fmt.Errorf("failed to list pull request files: %w", err)
+		}
+		files = append(files, page...)
+		if resp.NextPage == 0 {
+			break
+		}
+		opt.Page = resp.NextPage
 	}
 	return files, nil
 }
